@@ -2159,16 +2159,21 @@ class Data(BaseCartesianData):
         if log is not None and log[0]:
             if xmin < 0 or xmax < 0:
                 return np.zeros(bins)
-            xmin = np.log10(xmin)
-            xmax = np.log10(xmax)
-            x = np.log10(x)
+            # Numpy evaluates log10 in the precision of its argument (half
+            # precision for 8-bit integers, single precision for float32 and
+            # 16-bit integers), which is too coarse to compare the values with
+            # the range computed in double precision: values at (or close to)
+            # the ends of the range would be dropped.
+            xmin = np.log10(xmin, dtype=float)
+            xmax = np.log10(xmax, dtype=float)
+            x = np.log10(x, dtype=float)
 
         if ndim > 1 and log is not None and log[1]:
             if ymin < 0 or ymax < 0:
                 return np.zeros(bins)
-            ymin = np.log10(ymin)
-            ymax = np.log10(ymax)
-            y = np.log10(y)
+            ymin = np.log10(ymin, dtype=float)
+            ymax = np.log10(ymax, dtype=float)
+            y = np.log10(y, dtype=float)
 
         # By default fast-histogram drops values that are exactly xmax, so we
         # increase xmax very slightly to make sure that this doesn't happen, to
